@@ -10,6 +10,7 @@ Case = {'ops': [...]}, ops:
   ['delmon', name]
   ['sched', name, [ids]]          state['scheduled'][name] = sorted instance names
   ['tick', dt]
+  ['reconn', lost]                the ZooKeeper connection is suspended (lost=1: session lost) and re-established
   ['eval', {name: outcome}]       outcome of the REST call made for `name` in this evaluation
                                   (ok | nf | br | ve | ex)
 Names are small integers (app 'p.a<k>'), instances 'p.a<k>#%010d'.
@@ -69,6 +70,8 @@ def gen_case(rng, pid, tier):
             for _ in range(min(len(l), rng.randint(1, 3))):
                 l.pop(rng.randrange(len(l)))
             ops.append(['sched', n, sorted(l)])
+        elif r < 0.56:
+            ops.append(['reconn', 1 if rng.random() < 0.3 else 0])
         elif r < 0.70:
             ops.append(['tick', rng.choice(DTS)])
         else:
@@ -105,7 +108,9 @@ def run_impl(case, pid):
     now = [1000.0]
     state = None        # created by the real `_run_sync` (captured below)
     last_waited = {}
-    exact = {}          # name -> Fraction available, exact shadow for boundary detection only
+    exact = {}          # name -> Fraction available: the budget by the history alone (exact arithmetic)
+    exact_last = {}     # name -> time of its last refill
+    cfg_count = {}      # name -> configured count
     poisoned = False    # a float-boundary floor happened: stop comparing (model uses exact arithmetic)
     calls = []
     alerts = []
@@ -148,14 +153,45 @@ def run_impl(case, pid):
     mon_nodes = {}          # monitor name -> yaml payload (the /app-monitors/<name> nodes)
     sched_all = {}          # app name -> instance names (the children of /scheduled)
 
+    import threading as _threading
+    import kazoo.exceptions as _ke
+    from kazoo.protocol.states import KazooState as _KazooState
+
     class _Stat(object):
-        version = 0
+        def __init__(self, czxid, mzxid, version):
+            self.czxid, self.mzxid, self.version = czxid, mzxid, version
 
     class _Event(object):
-        def __init__(self, type_):
+        def __init__(self, type_, path=None):
             self.type = type_
+            self.path = path
+            self.state = 'CONNECTED'
+
+    class _Handler(object):
+        """kazoo's handler, sequential: spawned functions run at once."""
+        @staticmethod
+        def lock_object():
+            return _threading.Lock()
+
+        @staticmethod
+        def sleep_func(_secs):
+            return None
+
+        @staticmethod
+        def spawn(func, *args, **kwargs):
+            return func(*args, **kwargs)
 
     class _FakeZk(object):
+        """Just enough of the kazoo client for `_run_sync` and the REAL zkwatchers.ExistingDataWatch: the
+        /app-monitors/<name> nodes with their zxids, one-shot data watches, session listeners."""
+        handler = _Handler()
+
+        def __init__(self):
+            self.zxid = 100
+            self.nodes = {}          # path -> [data bytes, czxid, mzxid, version]
+            self.dwatches = {}       # path -> one-shot watch callbacks
+            self.listeners = []
+
         def ChildrenWatch(self, path):                                   # pylint: disable=invalid-name
             def deco(func):
                 watches[path] = func
@@ -163,17 +199,52 @@ def run_impl(case, pid):
                 return func
             return deco
 
-    class _FakeDataWatch(object):
-        def __init__(self, _client, path):
-            self.name = path.rsplit('/', 1)[1]
+        def add_listener(self, listener):
+            if listener not in self.listeners:
+                self.listeners.append(listener)
 
-        def __call__(self, func):
-            data_watches.setdefault(self.name, []).append(func)
-            if self.name in mon_nodes:
-                func(mon_nodes[self.name], _Stat(), None)
-            else:
-                func(None, None, None)
-            return func
+        def remove_listener(self, listener):
+            if listener in self.listeners:
+                self.listeners.remove(listener)
+
+        def get(self, path, watch=None):
+            rec = self.nodes.get(path)
+            if rec is None:
+                raise _ke.NoNodeError(path)
+            if watch is not None:
+                self.dwatches.setdefault(path, []).append(watch)
+            return rec[0], _Stat(rec[1], rec[2], rec[3])
+
+        def _fire(self, path, type_):
+            for w in self.dwatches.pop(path, []):
+                w(_Event(type_, path))
+
+        def put(self, path, data):
+            self.zxid += 1
+            rec = self.nodes.get(path)
+            if rec is None:
+                self.nodes[path] = [data, self.zxid, self.zxid, 0]
+                return False
+            rec[0], rec[2], rec[3] = data, self.zxid, rec[3] + 1
+            self._fire(path, 'CHANGED')
+            return True
+
+        def remove(self, path):
+            self.zxid += 1
+            del self.nodes[path]
+            self._fire(path, 'DELETED')
+
+        def reconnect(self, lost):
+            """SUSPENDED (or LOST: the server forgot the watches) then CONNECTED."""
+            if lost:
+                self.dwatches.clear()
+            for l in list(self.listeners):
+                l(_KazooState.LOST if lost else _KazooState.SUSPENDED)
+            for l in list(self.listeners):
+                l(_KazooState.CONNECTED)
+
+    fzk = _FakeZk()
+    from treadmill import zknamespace as _z
 
     captured = {}
 
@@ -189,7 +260,7 @@ def run_impl(case, pid):
 
     zkupd = mock.Mock()
     ctx = mock.Mock()
-    ctx.GLOBAL.zk.conn = _FakeZk()
+    ctx.GLOBAL.zk.conn = fzk
     ctx.GLOBAL.cell = 'cell'
     with mock.patch('time.time', lambda: now[0]), \
             mock.patch('time.sleep', lambda _s: None), \
@@ -198,7 +269,6 @@ def run_impl(case, pid):
             mock.patch.object(appmonitor, 'context', ctx), \
             mock.patch.object(appmonitor, 'make_alerter', lambda _d, _c: alert_f), \
             mock.patch.object(appmonitor.masterapi, 'get_suspended_appmonitors', lambda _zk: {}), \
-            mock.patch.object(appmonitor.zkwatchers, 'ExistingDataWatch', _FakeDataWatch), \
             mock.patch.object(appmonitor.utils, 'exit_on_unhandled', lambda f: f):
         # the real `_run_sync`, once: it creates `state` and registers the watches
         with mock.patch.object(appmonitor, 'reevaluate', capture_reevaluate):
@@ -213,22 +283,20 @@ def run_impl(case, pid):
                 conf = {'count': count}
                 if policy is not None:
                     conf['policy'] = policy
-                known = app(n) in mon_nodes
                 mon_nodes[app(n)] = _yaml.safe_dump(conf)
-                if known and data_watches.get(app(n)):
-                    # the node's data changed: its (latest) data watch fires
-                    data_watches[app(n)][-1](mon_nodes[app(n)], _Stat(), _Event('CHANGED'))
-                else:
+                if not fzk.put(_z.path.appmonitor(app(n)), mon_nodes[app(n)].encode()):
                     # a new child of /app-monitors: the children watch fires and sets up the data watch
                     mons_watch(sorted(mon_nodes))
+                # (an existing node whose data changed: its data watch fired inside put)
+                cfg_count[app(n)] = count
+                exact_last[app(n)] = now[0]
                 exact[app(n)] = Fraction(2 * count)
                 run.op('mon %d %d %s' % (n, count, policy if policy else 'none'), 'ok')
                 n_change += 1
             elif k == 'delmon':
                 if app(op[1]) in mon_nodes:
                     del mon_nodes[app(op[1])]
-                    for f_ in data_watches.pop(app(op[1]), [])[-1:]:
-                        f_(None, None, _Event('DELETED'))
+                    fzk.remove(_z.path.appmonitor(app(op[1])))
                     mons_watch(sorted(mon_nodes))
                 exact.pop(app(op[1]), None)
                 run.op('delmon %d' % op[1], 'ok')
@@ -240,6 +308,11 @@ def run_impl(case, pid):
                 sched_watch(children)
                 run.op('sched %d %s' % (n, ','.join(str(i) for i in sorted(ids)) or '-'), 'ok')
                 n_change += 1
+            elif k == 'reconn':
+                # the connection goes SUSPENDED / LOST and comes back; no monitor node changed
+                fzk.reconnect(bool(op[1]))
+                run.tags.add('reconnect-lost' if op[1] else 'reconnect-suspended')
+                run.op('reconn', 'ok')
             elif k == 'tick':
                 now[0] += op[1]
                 run.op('tick %d' % op[1], 'ok')
@@ -259,14 +332,15 @@ def run_impl(case, pid):
                 for n, c in before.items():
                     if susp_before.get(n, 0) > now[0]:
                         continue
-                    mx = Fraction(2 * c['count'])
+                    mx = Fraction(2 * cfg_count[n])
                     a = exact[n]
                     if a < mx:
-                        a2 = a + Fraction(2 * c['count'], 3600) * Fraction(int(now[0] - c['last_update']))
+                        a2 = a + Fraction(2 * cfg_count[n], 3600) * Fraction(int(now[0] - exact_last[n]))
                         if a2 < mx and a2.denominator == 1 and a2 != a:
                             boundary = True
                         a = min(a2, mx)
                     exact[n] = a
+                    exact_last[n] = now[0]
                 last_waited = appmonitor.reevaluate('http://x', alert_f, state, mock.Mock(), last_waited)
                 n_eval += 1
                 modified = zkupd.called
@@ -303,6 +377,12 @@ def run_impl(case, pid):
                             if c[2] > math.floor(avail + 1e-9):
                                 run.hits.append(fw.Hit(clause='over-budget', call_site='reevaluate',
                                                        detail='%s asked %d, available %r' % (nm, c[2], avail)))
+                            # the budget from the history alone (exact arithmetic; 1 token of slack for the
+                            # float boundary): configured 2*count, refilled at 2*count/hour, spent by creates
+                            if nm in exact and c[2] > math.floor(exact[nm]) + 1:
+                                run.hits.append(fw.Hit(clause='over-budget-history', call_site='reevaluate',
+                                                       detail='%s asked %d, budget by history %s' % (
+                                                           nm, c[2], exact[nm])))
                         else:
                             saw_delete = True
                             surplus = cur - count
